@@ -1092,7 +1092,8 @@ class Facts:
                 def module_of(pth):
                     t = re.sub(r'^<', '', pth)
                     segs = []
-                    for seg in t.split('::'):
+                    parts = t.split('::')
+                    for seg in (parts[:-1] if len(parts) > 1 and not pth.startswith('<') else parts):
                         if re.match(r'^[a-z_][a-z0-9_]*$', seg):
                             segs.append(seg)
                         else:
